@@ -3,7 +3,7 @@
 import json, subprocess, sys, tempfile, os, xml.etree.ElementTree as ET
 b = json.load(open("/root/.vp/BASELINE.json"))
 out = tempfile.mktemp(suffix=".xml")
-cmd = b["cmd"].replace("<file>", out) + " -n 12"
+cmd = b["cmd"].replace("<file>", out) + " -n 8"
 p = subprocess.run(cmd, shell=True, capture_output=True, text=True)
 passed = set()
 for tc in ET.parse(out).getroot().iter("testcase"):
